@@ -40,6 +40,16 @@ def gen_mesh(rng, regime):
         off = rng.choice([0.0, 1.0, -1.0, 17.3, -1000.0, 1000.0])
         pmin_f = [off * e + rng.uniform(-1, 1) * e for e in edge]
         pmax_f = [a + e for a, e in zip(pmin_f, edge)]
+    if regime == "big":
+        # many cells along an axis: indices are sampled, not enumerated
+        ndim = rng.choice([1, 1, 2])
+        n = [rng.choice([100, 500, 1000, 3000, 50000, 200000]) for _ in range(ndim)]
+        if ndim == 2:
+            n[rng.randrange(2)] = rng.choice([1, 2, 4])
+        cell = [Fraction(rng.choice([1, 3, 5]), 2 ** rng.randint(0, 4)) for _ in range(ndim)]
+        pmin = [Fraction(rng.randint(-200, 200), 2 ** rng.randint(0, 3)) for _ in range(ndim)]
+        pmax = [a + k * c for a, k, c in zip(pmin, n, cell)]
+        pmin_f, pmax_f = [float(x) for x in pmin], [float(x) for x in pmax]
     swap = [rng.random() < 0.3 for _ in range(ndim)]
     p1 = [b if s else a for a, b, s in zip(pmin_f, pmax_f, swap)]
     p2 = [a if s else b for a, b, s in zip(pmin_f, pmax_f, swap)]
@@ -50,7 +60,7 @@ def gen_mesh(rng, regime):
 def cases(rng, tier):
     nm = 120 if tier == "quick" else 1500
     for k in range(nm):
-        c = gen_mesh(rng, "exact" if k % 2 == 0 else "tol")
+        c = gen_mesh(rng, ("exact", "tol", "exact", "tol", "big")[k % 5])
         c["sub"] = rng.getrandbits(32)
         yield c
     # malformed stream
@@ -105,6 +115,11 @@ def probe_points(m, rng, regime):
         p = list(base)
         p[ax] = float(pmin[ax] - 2.0 * edges[ax])
         pts.append(("outside", p))
+    if regime == "big":
+        for _ in range(40):
+            i = [rng.choice([k - 1, rng.randrange(k), min(k - 1, 10 ** rng.randint(0, 5))]) for k in n]
+            fr = rng.choice([0.5, 0.9, 0.99, 0.999, 0.9999, 0.99999, 0.25, 1e-3, 1e-5])
+            pts.append(("interior", [float(a + (ii + fr) * c) for a, ii, c in zip(pmin, i, cell)]))
     pts.append(("wrong-length", [0.0] * (ndim + 1)))
     return pts
 
@@ -133,18 +148,33 @@ def run_impl(case):
     obs["tags"].append("cells:" + ("1" if len(m) == 1 else "2-20" if len(m) <= 20 else ">20"))
     obs["cell"] = Qs(m.cell)
     obs["len"] = len(m)
-    idxs = [tuple(int(x) for x in i) for i in m.indices]
+    big = len(m) > 400
+    obs["big"] = big
+    if not big:
+        idxs = [tuple(int(x) for x in i) for i in m.indices]
+        obs["iter"] = [Qs(p) for p in m]
+        obs["cells"] = [Qs(getattr(m.cells, d)) for d in m.region.dims]
+        obs["vertices"] = [Qs(getattr(m.vertices, d)) for d in m.region.dims]
+        cf = m.coordinate_field()
+        obs["coord_field"] = [Qs(cf.array[i]) for i in idxs]
+        # ---- oracle on the implementation alone
+        exp = [tuple(reversed(t)) for t in itertools.product(*[range(k) for k in reversed(n)])]
+        if idxs != exp or len(idxs) != len(m) or len(set(idxs)) != len(idxs):
+            obs["oracle"].append("indices are not the first-dimension-fastest enumeration of all cells")
+    else:
+        # sampled indices: ends, around powers of ten, random
+        idxs = set()
+        for _ in range(60):
+            idxs.add(tuple(rng.choice([0, k - 1, rng.randrange(k), min(k - 1, 10 ** rng.randint(0, 5) + rng.randint(0, 3)),
+                                       max(0, k - 1 - rng.randint(0, 3))]) for k in n))
+        idxs = sorted(idxs)
+        cells_ax = [getattr(m.cells, d) for d in m.region.dims]
+        verts_ax = [getattr(m.vertices, d) for d in m.region.dims]
+        obs["cells_at"] = [[Q(cells_ax[ax][i[ax]]) for ax in range(ndim)] for i in idxs]
+        obs["verts_at"] = [[Q(verts_ax[ax][i[ax]]) for ax in range(ndim)] for i in idxs]
+        obs["ax_len"] = [[len(c) for c in cells_ax], [len(v) for v in verts_ax]]
     obs["indices"] = [list(i) for i in idxs]
-    obs["iter"] = [Qs(p) for p in m]
-    obs["cells"] = [Qs(getattr(m.cells, d)) for d in m.region.dims]
-    obs["vertices"] = [Qs(getattr(m.vertices, d)) for d in m.region.dims]
-    cf = m.coordinate_field()
-    obs["coord_field"] = [Qs(cf.array[i]) for i in idxs]
     obs["i2p"] = [Qs(m.index2point(i)) for i in idxs]
-    # ---- oracle on the implementation alone
-    exp = [tuple(reversed(t)) for t in itertools.product(*[range(k) for k in reversed(n)])]
-    if idxs != exp or len(idxs) != len(m) or len(set(idxs)) != len(idxs):
-        obs["oracle"].append("indices are not the first-dimension-fastest enumeration of all cells")
     for i in idxs:
         c = m.index2point(i)
         if tuple(m.point2index(c)) != i:
@@ -187,7 +217,8 @@ def run_impl(case):
     obs["p2i"] = res
     # ---- constructor by cell size
     byc = []
-    for kind, fac in (("exact", 1.0), ("off1e-6", 1 + 1e-6), ("off-1e-6", 1 - 1e-6), ("off10pc", 1.1), ("too-large", None)):
+    for kind, fac in (("exact", 1.0), ("off1e-6", 1 + 1e-6), ("off-1e-6", 1 - 1e-6), ("off10pc", 1.1), ("too-large", None),
+                      ("nc1", 1.37), ("nc2", 0.7), ("nc3", 0.913)):
         if fac is None:
             c = [float(e) * 1.5 for e in m.region.edges]
         else:
@@ -198,6 +229,14 @@ def run_impl(case):
             obs["oracle"].append(f"mesh by commensurate cell ({kind}) gives {st} {byc[-1]['n']}, expected n={n}")
         if kind == "too-large" and st == "ok":
             obs["oracle"].append("cell larger than the region accepted")
+        if kind.startswith("nc") and st == "ok":
+            # accepted although some edge is clearly not a whole number of cells (remainder between 10 % and 90 % of a cell)
+            for e, cc in zip(m.region.edges, c):
+                q = Fraction(float(e)) / Fraction(cc)
+                fr = q - (q.numerator // q.denominator)
+                if Fraction(1, 10) < fr < Fraction(9, 10):
+                    obs["oracle"].append(f"Mesh(cell={c}) accepted although edge {float(e)} is {float(q):.4f} cells (n={byc[-1]['n']})")
+                    break
     obs["bycell"] = byc
     return obs
 
@@ -211,7 +250,10 @@ def model_requests(case, obs):
     if obs.get("mesh") != "ok":
         return reqs
     mj = obs["mesh_json"]
-    reqs.append(dict(op="mesh_info", mesh=mj))
+    if obs["big"]:
+        reqs.append(dict(op="mesh_info_big", mesh=mj, idxs=obs["indices"]))
+    else:
+        reqs.append(dict(op="mesh_info", mesh=mj))
     for i in obs["indices"]:
         reqs.append(dict(op="index2point", mesh=mj, index=i))
     for j in obs["bad_idx"]:
@@ -237,7 +279,7 @@ def _cmp_list(name, impl, model, exact, dis, scale=0.0):
 
 def compare(case, obs, rs):
     dis = []
-    exact = case["regime"] == "exact"
+    exact = case["regime"] in ("exact", "big")
     it = iter(rs)
     r = next(it)
     if ("ok" in r) != (obs["region"] == "ok"):
@@ -261,16 +303,23 @@ def compare(case, obs, rs):
     _cmp_list("cell", obs["cell"], info["cell"], exact, dis, scale=0.0)
     if obs["len"] != info["len"]:
         dis.append(f"len: impl {obs['len']} vs model {info['len']}")
-    if obs["indices"] != info["indices"]:
-        dis.append("indices: iteration order differs from model")
-    if not info["indices_spec"]:
-        dis.append("model: code-shaped indices differ from spec enumeration")
-    for name in ("cells", "vertices"):
-        for ax, (a, b) in enumerate(zip(obs[name], info[name])):
-            _cmp_list(f"{name}[{ax}]", a, b, exact, dis, scale=scale)
-    for k, (a, b) in enumerate(zip(obs["iter"], info["iter"])):
-        _cmp_list(f"iter[{k}]", a, b, exact, dis, scale=scale)
-        _cmp_list(f"coordinate_field[{k}]", obs["coord_field"][k], b, exact, dis, scale=scale)
+    if obs["big"]:
+        if obs["ax_len"] != info["ax_len"]:
+            dis.append(f"lengths of cells/vertices lists: impl {obs['ax_len']} vs model {info['ax_len']}")
+        for k, i in enumerate(obs["indices"]):
+            _cmp_list(f"cells at {i}", obs["cells_at"][k], info["cells_at"][k], exact, dis, scale=scale)
+            _cmp_list(f"vertices at {i}", obs["verts_at"][k], info["verts_at"][k], exact, dis, scale=scale)
+    else:
+        if obs["indices"] != info["indices"]:
+            dis.append("indices: iteration order differs from model")
+        if not info["indices_spec"]:
+            dis.append("model: code-shaped indices differ from spec enumeration")
+        for name in ("cells", "vertices"):
+            for ax, (a, b) in enumerate(zip(obs[name], info[name])):
+                _cmp_list(f"{name}[{ax}]", a, b, exact, dis, scale=scale)
+        for k, (a, b) in enumerate(zip(obs["iter"], info["iter"])):
+            _cmp_list(f"iter[{k}]", a, b, exact, dis, scale=scale)
+            _cmp_list(f"coordinate_field[{k}]", obs["coord_field"][k], b, exact, dis, scale=scale)
     for k, a in enumerate(obs["i2p"]):
         r = next(it)
         if "ok" not in r:
